@@ -25,6 +25,9 @@ pub struct Mon {
     pub slot: u64,
     /// Virtual time (ms) of the last non-keep-alive message fed (0 = connection start).
     pub last_live_ms: u64,
+    /// A live message was fed but the connection task has not read it yet (it waits for the busy
+    /// manager's answer to an earlier one): it arrives, for the client, when the task reads it.
+    pub deferred_live: bool,
     /// For every completed tick-to-tick interval: did a non-keep-alive message arrive in it?
     pub live_in_interval: Vec<bool>,
     pub ended_at_slot: Option<u64>,
@@ -123,7 +126,18 @@ impl Scenario for Timed {
                 mon.live_in_interval.push(live);
             }
             if sym_msg(sym).map(|m| m != Msg::KeepAlive).unwrap_or(false) && !p.ended.get() {
-                mon.last_live_ms = now;
+                if p.pipe.pending() > 0 {
+                    mon.deferred_live = true;
+                } else {
+                    mon.last_live_ms = now;
+                }
+            }
+            if mon.deferred_live && p.pipe.pending() == 0 {
+                // read in this step (the manager came back at this instant)
+                mon.deferred_live = false;
+                if !p.ended.get() {
+                    mon.last_live_ms = now;
+                }
             }
             if sym == "Handshake" {
                 mon.hs_done = true;
@@ -194,7 +208,7 @@ impl Scenario for Timed {
     fn key(&self, w: &World, mon: &Mon) -> String {
         // byte counters are part of the key (they feed the rate statistics); the time of the last
         // live message matters only relative to the interval grid
-        format!("{} hs={} slot={} live={} liv={:?} busy={}/{}/{}", w.default_key(), mon.hs_done, mon.slot, mon.last_live_ms / 120_000 * 1000 + (mon.last_live_ms > 0) as u64, mon.live_in_interval.iter().all(|l| *l), w.manager_paused, mon.pause_used, mon.paused_slots)
+        format!("{} hs={} slot={} live={} liv={:?} busy={}/{}/{}", w.default_key(), mon.hs_done, mon.slot, mon.last_live_ms / 120_000 * 1000 + (mon.last_live_ms > 0) as u64, mon.live_in_interval.iter().all(|l| *l), w.manager_paused, mon.pause_used, mon.paused_slots) + if mon.deferred_live { " deferred" } else { "" }
     }
 }
 
